@@ -329,8 +329,10 @@ class Seams:
         self._set(ns.cloud, "token_hex", lambda n=32: rnd.bytes("token_hex", n).hex())
         self._set(ns.cloud, "token_urlsafe", lambda n=32: rnd.bytes("token_urlsafe", n).hex())
         self._set(ns.cloud.BaseCloud, "DEVICE_ID", rnd.bytes("cloud_device_id", 8).hex())
-        # process-global state: a run is a fresh process
-        _reset_class_state()
+        # process-global state: a run is a fresh process (unless this world continues the process of another one:
+        # a second asyncio.run() in the same interpreter)
+        if not getattr(self, "same_process", False):
+            _reset_class_state()
         # every clock a (changed) library might read follows the simulation: time.monotonic()/perf_counter() are
         # the loop's virtual time, time.time() the simulated wall clock (restored on exit)
         import time as _time
@@ -350,5 +352,6 @@ class Seams:
         for obj, name, value in reversed(self._saved):
             setattr(obj, name, value)
         self._saved.clear()
-        _reset_class_state()
+        if not getattr(self, "keep_process_state", False):
+            _reset_class_state()
         return False
